@@ -8,7 +8,7 @@ import (
 
 func init() {
 	props["C03"] = c03
-	floors["C03"] = map[string]int{"C03.R1": 4, "C03.R2": 2, "C03.R3": 4}
+	floors["C03"] = map[string]int{"C03.R1": 4, "C03.R2": 2, "C03.R3": 4, "C03.R5": 1}
 }
 
 // synth502 checks, for an upstream-contact call whose error is tested, that
@@ -200,6 +200,10 @@ func c03(r *Report) {
 	})
 
 	c03R4(r)
+
+	r.Guard("C03.R5", "an origin that aborts a blind tunnel does not leave the client hanging: the end of a copy direction is passed on however the copy ended", func() {
+		tunnelEOSRule(r, hcr, tunnelCopiers(hcr))
+	})
 
 	r.Guard("C03.R3", "any failure to read a request closes the connection", func() {
 		// every return of the reader with a nil request returns errClose
